@@ -1,9 +1,9 @@
 #!/bin/sh
 # dev aid: run every registered check at a tier, summarise
 tier=${1:-quick}
-for p in $(python3 -c "import json;print(' '.join(sorted(json.load(open('/verif/checks.json')))))"); do
+for p in $(python3 -c "import json;print(' '.join(sorted(json.load(open('checks.json')))))"); do
   s=$(date +%s)
-  ./check $p $tier > /tmp/check_$p.log 2>&1; rc=$?
+  ./check $p $tier > ${LOGDIR:-/tmp}/check_$p.log 2>&1; rc=$?
   e=$(date +%s)
-  echo "$p exit=$rc time=$((e-s))s viol=$(grep -c '^VIOLATION' /tmp/check_$p.log) known=$(grep -c '^KNOWN-FINDING' /tmp/check_$p.log) incomplete=$(grep -c '^CHECK-INCOMPLETE' /tmp/check_$p.log)"
+  echo "$p exit=$rc time=$((e-s))s viol=$(grep -c '^VIOLATION' ${LOGDIR:-/tmp}/check_$p.log) known=$(grep -c '^KNOWN-FINDING' ${LOGDIR:-/tmp}/check_$p.log) incomplete=$(grep -c '^CHECK-INCOMPLETE' ${LOGDIR:-/tmp}/check_$p.log)"
 done
